@@ -3,7 +3,10 @@
 Cases: (a) survey-based cubes with a `sum` measure over CAT / CAT_DATE / MR / CA dimensions, insertions on rows
 and/or columns (sums arbitrary rationals incl. NaN cells), 2-D and 3-D; (b) strands with a sum measure;
 (c) numeric-array responses built by hand (num-array rows x CAT columns with column insertions, and the
-ungrouped num-array strand).
+ungrouped num-array strand).  Every case also draws the METADATA of the sum measure (`sum_meta`: type.integer true /
+false / null / absent, derived, n_missing, references with / without a summary-statistic view, missing rules): the
+metadata describes the summed variable, not the measure's values, so no share may depend on it (sums are fractional
+-- down to 1/64 -- under an integer-typed variable exactly when the cube is weighted).
 
 Checks: spec  — every cell of `_Slice.row_share_sum / column_share_sum / total_share_sum` and `_Strand.share_sum`
                 against the Lean Spec table `cell / nansum over BASE rows|cols|cells` of the assembled table
@@ -43,7 +46,9 @@ THEOREMS = [
 ]
 RULE = ("sum responses: survey-based cubes (rows/cols in cat, cat_date, mr, ca; optional table dimension) and "
         "hand-built numeric-array responses, sums arbitrary rationals with NaN cells, zero and negative totals; 0-3 "
-        "insertions per cat-like dimension (sums, differences, stale ids, overlaps) at view and transform level. "
+        "insertions per cat-like dimension (sums, differences, stale ids, overlaps) at view and transform level; the "
+        "sum measure's metadata drawn per case (type.integer true / false / null / absent, derived, n_missing, "
+        "references / summary-statistic view, missing rules) over sums with dyadic fractions down to 1/64. "
         "Non-trivial = at least one inserted row or column with a finite non-zero share; distinct = (kinds, subtotal "
         "idx lists, rounded shares) key")
 ASSUMPTIONS = [
@@ -64,13 +69,17 @@ SHARES = ["row_share_sum", "column_share_sum", "total_share_sum"]
 
 
 def _sum_data(rng, n, nan_p=0.1, style=None):
-    style = style or rng.choice(["pos", "pos", "mixed", "zero_total", "sparse"])
+    style = style or rng.choice(["pos", "pos", "fine", "mixed", "zero_total", "sparse"])
     out = []
     for _ in range(n):
         if rng.random() < nan_p:
             out.append(None)
         elif style == "pos":
             out.append(gen.frac_str(Fraction(rng.randint(0, 40), rng.choice([1, 1, 2, 4]))))
+        elif style == "fine":
+            # weighted sums: dyadic down to 1/64 (exact in binary64), some of them large, some below 1/2
+            out.append(gen.frac_str(Fraction(rng.choice([rng.randint(1, 31), rng.randint(0, 4000), rng.randint(-90, 900)]),
+                                             rng.choice([8, 16, 64]))))
         elif style == "mixed":
             out.append(gen.frac_str(Fraction(rng.randint(-12, 30), rng.choice([1, 2]))))
         elif style == "zero_total":
@@ -78,6 +87,78 @@ def _sum_data(rng, n, nan_p=0.1, style=None):
         else:
             out.append(gen.frac_str(Fraction(rng.choice([0, 0, 0, 5, 7]))))
     return out
+
+
+def gen_sum_meta(rng):
+    """metadata of the `sum` measure: it describes the summed VARIABLE (an integer variable has fractional sums in a
+    weighted cube), so shares may not depend on any of it.  None = the default payload (integer: false)."""
+    if rng.random() < 0.2:
+        return None
+    return {"integer": rng.choice([True, True, True, False, None, "absent"]),
+            "derived": rng.random() < 0.6,
+            "n_missing": rng.choice([0, 0, 2, 7]),
+            "refs": rng.choice(["asis", "named", "stat"]),
+            "rules": rng.random() < 0.3,
+            "all_measures": rng.random() < 0.5}
+
+
+def apply_sum_meta(resp, sm):
+    """edit the metadata of the sum measure (of every numeric measure when `all_measures`) in place"""
+    if not sm:
+        return resp
+    measures = resp["result"]["measures"]
+    names = [n for n in measures if n != "count"] if sm.get("all_measures") else ["sum"]
+    for name in names:
+        m = measures.get(name)
+        if m is None:
+            continue
+        md = m.setdefault("metadata", {})
+        t = md.setdefault("type", {})
+        if sm["integer"] == "absent":
+            t.pop("integer", None)
+        else:
+            t["integer"] = sm["integer"]
+        md["derived"] = bool(sm["derived"])
+        if name == "sum":
+            m["n_missing"] = sm["n_missing"]
+        refs = md.setdefault("references", {})
+        if sm["refs"] == "named":
+            refs.setdefault("alias", "amount")
+            refs.setdefault("name", "Amount")
+        elif sm["refs"] == "stat":
+            refs.setdefault("alias", "amount")
+            refs.setdefault("name", "Amount")
+            refs["view"] = {"summary_statistic": "sum"}
+        if sm["rules"]:
+            t["missing_reasons"] = {"No Data": -1, "skipped": -9}
+            t["missing_rules"] = {"skipped": {"value": -9}}
+    return resp
+
+
+def build_cube(case, vars_, survey, ins):
+    """`c04.build_cube` with the drawn metadata of the sum measure"""
+    from cr.cube.cube import Cube
+    resp = apply_sum_meta(C4.build_response(case, vars_, survey), case.get("sum_meta"))
+    dv = S.dim_vars(vars_)
+    tr = {}
+    if case["mode"] == "slice":
+        slots = (("rows", dv[-2], "rows_dimension"), ("cols", dv[-1], "columns_dimension"))
+    else:
+        slots = (("rows", dv[-1], "rows_dimension"),)
+    for key, (var, role), tkey in slots:
+        spec = ins.get(key) or {}
+        if role != "cat":
+            if spec.get("transform") is not None:
+                tr[tkey] = {"insertions": copy.deepcopy(spec["transform"])}
+            continue
+        if spec.get("view") is not None:
+            S.attach_view(resp, vars_, vars_.index(var), role, spec["view"])
+        if spec.get("transform") is not None:
+            tr[tkey] = {"insertions": copy.deepcopy(spec["transform"])}
+    kw = {}
+    if case.get("population"):
+        kw["population"] = case["population"]
+    return Cube(resp, transforms=tr, **kw)
 
 
 def gen_survey_case(rng, strand=False):
@@ -96,6 +177,7 @@ def gen_survey_case(rng, strand=False):
     c["blk"] = None
     c["population"] = None
     c["src"] = "survey"
+    c["sum_meta"] = gen_sum_meta(rng)
     return c
 
 
@@ -120,6 +202,7 @@ def gen_numarr_case(rng):
         case["sums"] = _sum_data(rng, nsub, nan_p=0.0)
         case["valid_counts"] = [rng.randint(0, 6) for _ in range(nsub)]
         case["counts"] = [rng.randint(1, 9)]
+    case["sum_meta"] = gen_sum_meta(rng)
     return case
 
 
@@ -160,7 +243,7 @@ def _numarr_response(case):
               "measures": {"valid_count_unweighted": {"data": case["valid_counts"], "n_missing": 0,
                                                       "metadata": copy.deepcopy(meta)},
                            "sum": {"data": sums, "n_missing": 0, "metadata": copy.deepcopy(meta)}}}
-    return {"query": {}, "result": result}
+    return apply_sum_meta({"query": {}, "result": result}, case.get("sum_meta"))
 
 
 def _numarr_matrix(case):
@@ -315,7 +398,7 @@ def _corollaries(findings, ctx, name, share, sums, ro, co, nrs, ncs, row_subs, c
 def _eval_slice(case, louts, ctx):
     vars_, survey = C4._load(case)
     findings = []
-    cube = C4.build_cube(case, vars_, survey, case["ins"])
+    cube = build_cube(case, vars_, survey, case["ins"])
     sl = cube.partitions[case["k"]]
     try:
         V = C4._SliceView(sl)
@@ -360,7 +443,7 @@ def common_call(fn):
 def _eval_strand(case, louts, ctx):
     vars_, survey = C4._load(case)
     findings = []
-    cube = C4.build_cube(case, vars_, survey, case["ins"])
+    cube = build_cube(case, vars_, survey, case["ins"])
     st = cube.partitions[0]
     L = louts[0]
     v = vars_[0]
@@ -472,13 +555,20 @@ def evaluate(case, louts, ctx):
 def describe(case):
     if case["mode"] == "numarr":
         return {"mode": "numarr", "nsub": case["nsub"], "grouped": case["grouped"], "sums": case["sums"][:8],
-                "insertions": case["ins"]}
+                "insertions": case["ins"], "sum_meta": case.get("sum_meta")}
     d = C4.describe(case)
     d["sums"] = (case["sums"] or [])[:8]
+    d["sum_meta"] = case.get("sum_meta")
     return d
 
 
 def shrink_candidates(case):
+    if case.get("sum_meta"):
+        yield dict(case, sum_meta=None)          # does the finding need the drawn metadata at all?
+        for fld, dflt in (("all_measures", False), ("derived", True), ("n_missing", 0), ("refs", "asis"), ("rules", False),
+                          ("integer", False)):
+            if case["sum_meta"].get(fld) != dflt:
+                yield dict(case, sum_meta=dict(case["sum_meta"], **{fld: dflt}))
     if case["mode"] == "numarr":
         for lvl in ("view", "transform"):
             lst = case["ins"].get(lvl)
